@@ -74,6 +74,21 @@ def run(ctx):
                 elif len(req["steps"]) >= steps - 1 and len(cov["samples"]) < 3:
                     cov["samples"].append(dict(steps=plain, promised_at_end=req["steps"][-1]["exp"]))
             pool.run_all(scns, on_result, chunk=32)
+            # the same paths in databases that hold many other tables (eight more after the first successful USE: the catalog's
+            # own tree grows a level): creating a table other than t changes nothing Session.tla talks about - a stuttering
+            # step of the specification - so every promise of the path stands as it is
+            wide = []
+            for n, sc in enumerate(scns):
+                if n % 4:
+                    continue
+                st_ = sc["steps"]
+                ks = [k for k, x in enumerate(st_[:-1]) if x["a"] == "use" and x["exp"]["k"] == "ok"]
+                if ks:
+                    k = ks[0]
+                    fill = [dict(a="filler", n="", v=j, exp=dict(st_[k]["exp"], k="ok")) for j in range(1, 9)]
+                    wide.append(dict(steps=st_[:k + 1] + fill + st_[k + 1:]))
+            st["replayed_with_filler_tables"] = len(wide)
+            pool.run_all(wide, on_result, chunk=32)
             cov["states"] += res.distinct
             cov["transitions"] += res.generated
             cov["traces_validated_against_impl"] += st["replayed"]
